@@ -10,6 +10,7 @@ import (
 	"time"
 
 	"github.com/idena-network/idena-go/blockchain"
+	"github.com/idena-network/idena-go/blockchain/fee"
 	"github.com/idena-network/idena-go/blockchain/types"
 	"github.com/idena-network/idena-go/common"
 	"github.com/idena-network/idena-go/crypto/vrf/p256"
@@ -250,6 +251,46 @@ func TestTamperedBlocksRejected(t *testing.T) {
 				bytesField("IpfsHash", func(b *types.Block) *[]byte { return &ph(b).IpfsHash }, func(o *types.ProposedHeader) []byte { return o.IpfsHash })
 				bytesField("TxReceiptsCid", func(b *types.Block) *[]byte { return &ph(b).TxReceiptsCid }, func(o *types.ProposedHeader) []byte { return o.TxReceiptsCid })
 				bytesField("SeedProof", func(b *types.Block) *[]byte { return &ph(b).SeedProof }, func(o *types.ProposedHeader) []byte { return o.SeedProof })
+				// two fields tampered together: a zero seed with a proof that does not verify (a verifier that ignores the
+				// proof error compares the seed with the zero value it gets back)
+				for _, pv := range []string{"nil", "empty", "zeros", "truncated", "bitflip", "from-other-block"} {
+					pv := pv
+					add("BlockSeed+SeedProof", "zero-seed+"+pv+"-proof", func(b *types.Block) bool {
+						h := ph(b)
+						h.BlockSeed = types.Seed{}
+						switch pv {
+						case "nil":
+							h.SeedProof = nil
+						case "empty":
+							h.SeedProof = []byte{}
+						case "zeros":
+							h.SeedProof = make([]byte, len(h.SeedProof))
+						case "truncated":
+							if len(h.SeedProof) < 2 {
+								return false
+							}
+							h.SeedProof = h.SeedProof[:len(h.SeedProof)-1]
+						case "bitflip":
+							h.SeedProof = flipBit(h.SeedProof, pos)
+						case "from-other-block":
+							if other == nil || other.Header.ProposedHeader == nil || bytes.Equal(other.Header.ProposedHeader.SeedProof, h.SeedProof) {
+								return false
+							}
+							h.SeedProof = append([]byte{}, other.Header.ProposedHeader.SeedProof...)
+						}
+						return true
+					})
+				}
+				// on a state that has no fee rate yet (the first proposed blocks of a chain) a stated rate equal to the
+				// network minimum is as wrong as any other non-zero rate
+				add("FeePerGas", "network-minimum-on-state-without-rate", func(b *types.Block) bool {
+					cur := v.ReadState()
+					if f := cur.State.FeePerGas(); f != nil && f.Sign() != 0 {
+						return false
+					}
+					ph(b).FeePerGas = fee.GetFeePerGasForNetwork(cur.ValidatorsCache.NetworkSize())
+					return ph(b).FeePerGas.Sign() != 0
+				})
 				// a stated, non-zero but wrong fee rate (an absent rate is the proposer's free choice)
 				add("FeePerGas", "+1", func(b *types.Block) bool {
 					f := ph(b).FeePerGas
